@@ -61,7 +61,7 @@ func integerCodecRule(P *Program, R *Report) {
 			if c == nil || bigMethod(c) != "SetString" || idx != 1 || a.Want != True {
 				return false
 			}
-			k, ok := constInt(c.Call.Args[2])
+			k, ok := constInt(callArgs(c)[2])
 			return ok && k == 10
 		}})
 	}
@@ -75,7 +75,7 @@ func integerCodecRule(P *Program, R *Report) {
 		// quoted branch: SetBytes (unsigned by construction)
 		ok := false
 		for _, c := range callsIn(fn) {
-			if cc, isC := c.(*ssa.Call); isC && bigMethod(cc) == "SetBytes" && desc(cc.Call.Args[0]) == "arg#0" {
+			if cc, isC := c.(*ssa.Call); isC && bigMethod(cc) == "SetBytes" && desc(callArgs(cc)[0]) == "arg#0" {
 				ok = true
 			}
 		}
@@ -114,8 +114,8 @@ func integerCodecRule(P *Program, R *Report) {
 		if c == nil || bigMethod(c) != "SetString" || idx != 1 || a.Want != True {
 			return false
 		}
-		k, ok := constInt(c.Call.Args[2])
-		return ok && k == 10 && desc(c.Call.Args[1]) == "new:gabikeys.xmlBases.Bases[#i].Bigint"
+		k, ok := constInt(callArgs(c)[2])
+		return ok && k == 10 && desc(callArgs(c)[1]) == "new:gabikeys.xmlBases.Bases[#i].Bigint"
 	})
 	R.decide(rule, kBasesUnm+":each-base10", "nil => every element (in document order, element i into slot i) parsed as a base-10 integer", m1.holds, m1.detail, P.Pos(fn.Pos()))
 	m2 := elem(func(a Atom) bool {
@@ -172,7 +172,7 @@ func keyLoaderRule(P *Program, R *Report) {
 		R.decide(rule, kPubBytes+":Params", "Params is derived from the modulus length", okParams, "", P.Pos(fn.Pos()))
 		// no dereference of N before the nil test: the BitLen call is reached only after the test
 		for _, c := range callsIn(fn) {
-			if cc, ok := c.(*ssa.Call); ok && bigMethod(cc) != "" && desc(cc.Call.Args[0]) == "new:gabikeys.PublicKey.N" {
+			if cc, ok := c.(*ssa.Call); ok && bigMethod(cc) != "" && desc(callArgs(cc)[0]) == "new:gabikeys.PublicKey.N" {
 				r := (&MustPass{P: P, Match: func(a Atom) bool { return desc(a.V) == "new:gabikeys.PublicKey.N" && a.Want == NonNil }}).MustReach(fn, cc)
 				R.decide(rule, kPubBytes+":N-checked-before-use", "n is used only after its nil test", r.Holds, r.Path, P.Pos(cc.Pos()))
 			}
@@ -210,7 +210,7 @@ func keyLoaderRule(P *Program, R *Report) {
 		mp(P, R, rule, kPrivXML+":validated", "outside demo mode a key is returned only if Validate() returned nil", fn, acc, &MustPass{Exempt: func(a Atom) bool { return desc(a.V) == "arg#1" && a.Want == True },
 			Match: func(a Atom) bool {
 				c, ok := callAtom(a, Nil, "gabikeys.(*PrivateKey).Validate")
-				return ok && desc(c.Call.Args[0]) == pk
+				return ok && desc(callArgs(c)[0]) == pk
 			}})
 		// uses after the nil tests
 		var val *ssa.Call
@@ -260,7 +260,7 @@ func fileModeRule(P *Program, R *Report) {
 			var mode, flags ssa.Value
 			switch name {
 			case "os.OpenFile":
-				flags, mode = c.Common().Args[1], c.Common().Args[2]
+				flags, mode = callArgs(c)[1], callArgs(c)[2]
 			case "os.Create", "os.WriteFile", "io/ioutil.WriteFile":
 				n++
 				R.bad(rule, FuncKey(g)+":"+name, "private key files are created with an explicit owner-only mode", name+" uses 0666 before umask", P.Pos(c.Pos()))
@@ -288,10 +288,10 @@ func fileModeRule(P *Program, R *Report) {
 				if cc == nil || !calleeIs(cc, "(*os.File).Chmod") || a.Want != Nil {
 					return false
 				}
-				if cc.Call.Args[0] != ssa.Value(call) && desc(cc.Call.Args[0]) != desc(call)+"#0" {
+				if callArgs(cc)[0] != ssa.Value(call) && desc(callArgs(cc)[0]) != desc(call)+"#0" {
 					return false
 				}
-				mm, ok := constInt(cc.Call.Args[1])
+				mm, ok := constInt(callArgs(cc)[1])
 				return ok && mm&0o077 == 0
 			}
 			// every path to the write passes a successful chmod of this file, or went through the other (exclusive) open
@@ -414,7 +414,7 @@ func codecPairsRule(P *Program, R *Report) {
 			okM, okU, okUn := false, false, false
 			for _, c := range callsIn(mf) {
 				if isCallTo(c, enc.mf) {
-					okM = desc(c.Common().Args[0]) == "call:"+recv+".compress(<revocation."+typ.t+">)"
+					okM = desc(callArgs(c)[0]) == "call:"+recv+".compress(<revocation."+typ.t+">)"
 				}
 			}
 			// (in the decoder itself or in a helper shared by the JSON and CBOR decoders that is handed the library
@@ -422,10 +422,10 @@ func codecPairsRule(P *Program, R *Report) {
 			deepVisit(P, uf, 1, func(g *ssa.Function) {
 				for _, c := range callsIn(g) {
 					if isCallTo(c, enc.uf) {
-						okU = desc(c.Common().Args[1]) == "new:revocation."+typ.inter
+						okU = desc(callArgs(c)[1]) == "new:revocation."+typ.inter
 					}
 					if isCallTo(c, recv+".uncompress") {
-						okUn = desc(c.Common().Args[1]) == "new:revocation."+typ.inter
+						okUn = desc(callArgs(c)[1]) == "new:revocation."+typ.inter
 					}
 				}
 			})
@@ -449,8 +449,8 @@ func codecPairsRule(P *Program, R *Report) {
 		}
 		read := map[string]bool{}
 		allInstrs(uf, func(i ssa.Instruction) {
-			if fa, ok := i.(*ssa.FieldAddr); ok && typeKey(fa.X.Type()) == "revocation."+typ.inter {
-				read[fieldName(fa.X.Type(), fa.Field)] = true
+			if fa, ok := i.(*ssa.FieldAddr); ok && faType(fa) == "revocation."+typ.inter {
+				read[faName(fa)] = true
 			}
 		})
 		st := structOf(P, "revocation."+typ.inter)
@@ -605,7 +605,7 @@ func decodersKeepInputRule(P *Program, R *Report) {
 					why = append(why, P.Pos(x.Pos())+": store into the input bytes")
 				}
 			case *ssa.Call:
-				if k, has := dstArg[calleeName(x)]; has && k < len(x.Call.Args) && derived(x.Call.Args[k]) {
+				if k, has := dstArg[calleeName(x)]; has && k < len(callArgs(x)) && derived(callArgs(x)[k]) {
 					ok = false
 					why = append(why, P.Pos(x.Pos())+": "+calleeName(x)+" writes into the input bytes")
 				}
